@@ -151,7 +151,7 @@ theorem resolveDate_civilFromDays (z : Int) (h : inChronoDays z = true) :
     resolveDate (civilFromDays z).1 (civilFromDays z).2.1.toNat (civilFromDays z).2.2.toNat = some z := by
   have hv := civilFromDays_valid z
   have hy := civilFromDays_year_bounds z h
-  have hb := validDate_bounds' hv
+  have hb := validDate_bounds hv
   unfold resolveDate
   rw [Int.toNat_of_nonneg (by omega), Int.toNat_of_nonneg (by omega)]
   rw [if_pos ⟨hy.1, hy.2, hv⟩, daysFromCivil_civilFromDays]
@@ -160,7 +160,7 @@ theorem resolveDate_civilFromDays (z : Int) (h : inChronoDays z = true) :
 back to that day count -/
 theorem parseNaiveDate_formatDays (z : Int) (h : inChronoDays z = true) : parseNaiveDate (formatDays z) = .ok z := by
   have hv := civilFromDays_valid z
-  have hb := validDate_bounds' hv
+  have hb := validDate_bounds hv
   unfold parseNaiveDate formatDays
   have := parseDateItems_formatDate (civilFromDays z).1 (civilFromDays z).2.1 (civilFromDays z).2.2
     (by omega) (by omega) []
@@ -275,7 +275,7 @@ theorem formatInstant_eq (t : Instant) (suffix : List Char) :
 theorem parseNaiveDateTime_formatInstant (t : Instant) (hd : inChronoDays t.days = true) (hs : t.secs < 86400)
     (hn : t.nanos < 1000000000) : parseNaiveDateTime (formatInstant t []) = .ok t := by
   have hv := civilFromDays_valid t.days
-  have hb := validDate_bounds' hv
+  have hb := validDate_bounds hv
   rw [formatInstant_eq]
   unfold parseNaiveDateTime
   rw [parseDateItems_formatDate _ _ _ (by omega) (by omega)]
@@ -289,7 +289,7 @@ theorem parseNaiveDateTime_formatInstant (t : Instant) (hd : inChronoDays t.days
 theorem parseUtcDateTime_formatInstant (t : Instant) (hd : inChronoDays t.days = true) (hs : t.secs < 86400)
     (hn : t.nanos < 1000000000) : parseUtcDateTime (formatInstant t ['Z']) = .ok t := by
   have hv := civilFromDays_valid t.days
-  have hb := validDate_bounds' hv
+  have hb := validDate_bounds hv
   rw [formatInstant_eq]
   unfold parseUtcDateTime
   rw [parseDateItems_formatDate _ _ _ (by omega) (by omega)]
